@@ -1,0 +1,127 @@
+//go:build verif
+
+// Contracts for the deductive verification kept in /verif (govc). This file is
+// compiled only with the "verif" build tag and contains no code: every
+// contract lives in a comment block and is read by the verifier together with
+// the real source of this package.
+
+package control
+
+/*@
+
+// ---------- C07: the representation invariant of a paragraph, for arbitrary input ----------
+
+// position of key k among the first n entries of order (the last such position), or -1
+pure func idxOf(order []string, k string, n int) int reads heap
+  decreases n
+  { n <= 0 || n > len(order) ? -1 : (order[n-1] == k ? n-1 : idxOf(order, k, n-1)) }
+
+auto lemma idxOf_range(order []string, k string, n int) reads heap
+  ensures idxOf(order, k, n) == -1 || (0 <= idxOf(order, k, n) && idxOf(order, k, n) < n && order[idxOf(order, k, n)] == k)
+  decreases max(n, 0)
+  trigger idxOf(order, k, n)
+  { if 0 < n && n <= len(order) && order[n-1] != k { idxOf_range(order, k, n-1) } }
+
+// two lists that agree on their first n entries give the same positions there
+lemma idxOf_prefix(a []string, b []string, k string, n int) reads heap
+  requires 0 <= n && n <= len(a) && n <= len(b) && (forall i int :: 0 <= i && i < n ==> a[i] == b[i])
+  ensures idxOf(a, k, n) == idxOf(b, k, n)
+  decreases n
+  { if n > 0 { idxOf_prefix(a, b, k, n-1) } }
+
+// an entry of the list is found among the first n entries
+lemma idxOf_found(order []string, i int, n int) reads heap
+  requires 0 <= i && i < n && n <= len(order)
+  ensures idxOf(order, order[i], n) >= i
+  decreases n
+  { if i < n - 1 && order[n-1] != order[i] { idxOf_found(order, i, n-1) } }
+
+// a paragraph has a value for exactly the fields it lists, each listed once
+pure func pwf(vals map[string]string, order []string) bool reads heap {
+  (forall i int :: 0 <= i && i < len(order) ==> has(vals, order[i])) &&
+  (forall i int, j int :: 0 <= i && i < j && j < len(order) ==> order[i] != order[j]) &&
+  (forall k string :: has(vals, k) ==> idxOf(order, k, len(order)) >= 0) }
+
+func (*ParagraphReader).Next
+  requires p != nil && p.reader != nil
+  // a value xor an error
+  ensures result1 != nil ==> result0 == nil
+  ensures result1 == nil ==> result0 != nil && fresh(result0)
+  // every returned paragraph is well formed and non-empty, whatever the input bytes were
+  ensures result1 == nil ==> result0.Values != nil && pwf(result0.Values, result0.Order) && len(result0.Order) > 0
+  // end of input is reported only when the input is exhausted; a paragraph is returned only after input was consumed
+  ensures result1 == io.EOF ==> p.reader.rem == ""
+  ensures len(p.reader.rem) <= len(old(p.reader.rem))
+  ensures result1 == nil ==> len(p.reader.rem) < len(old(p.reader.rem))
+  ensures p.reader == old(p.reader)
+  modifies p.reader.rem
+  loop 1:
+    invariant p.reader == old(p.reader) && p.reader != nil
+    invariant len(p.reader.rem) <= len(old(p.reader.rem))
+    invariant len(paragraph.Order) > 0 ==> len(p.reader.rem) < len(old(p.reader.rem))
+    invariant paragraph.Values != nil && pwf(paragraph.Values, paragraph.Order)
+      by { forall k string { idxOf_prefix(at(L1.head, paragraph.Order), paragraph.Order, k, len(at(L1.head, paragraph.Order))) } }
+    invariant len(paragraph.Order) > 0 ==> lastKey == paragraph.Order[len(paragraph.Order) - 1]
+    decreases len(p.reader.rem)
+
+// reading all at once = iterating Next until the end of the input; on error nothing is returned
+func (*ParagraphReader).All
+  requires p != nil && p.reader != nil
+  ensures result1 != nil ==> len(result0) == 0
+  ensures result1 == nil ==> p.reader.rem == ""
+  ensures forall i int :: 0 <= i && i < len(result0) ==> result0[i].Values != nil && pwf(result0[i].Values, result0[i].Order) && len(result0[i].Order) > 0
+  modifies p.reader.rem
+  loop 1:
+    invariant p.reader == old(p.reader) && p.reader != nil
+    invariant forall i int :: 0 <= i && i < len(ret) ==> ret[i].Values != nil && pwf(ret[i].Values, ret[i].Order) && len(ret[i].Order) > 0
+    decreases len(p.reader.rem)
+
+// setting a field keeps the paragraph well formed: a known key keeps its position, a new key goes last
+func (*Paragraph).Set
+  requires p != nil && p.Values != nil && pwf(p.Values, p.Order)
+  ensures pwf(p.Values, p.Order) && has(p.Values, key) && p.Values[key] == value && p.Values == old(p.Values)
+    by { forall k string { idxOf_prefix(old(p.Order), p.Order, k, len(old(p.Order))) } }
+  ensures old(has(p.Values, key)) ==> p.Order == old(p.Order)
+  ensures !old(has(p.Values, key)) ==> len(p.Order) == old(len(p.Order)) + 1 && p.Order[len(p.Order) - 1] == key
+  ensures forall i int :: 0 <= i && i < old(len(p.Order)) ==> p.Order[i] == old(p.Order[i])
+  ensures forall k string :: k != key ==> has(p.Values, k) == old(has(p.Values, k)) && p.Values[k] == old(p.Values[k])
+  modifies p.Order, mapof(p.Values)
+
+// merging the fields a struct knows (other) over the raw paragraph (p): the raw fields keep their positions, new
+// ones are appended in other's order; every field other lists takes other's value, every field it does not list
+// keeps the raw value (unknown fields pass through unchanged)
+func (*Paragraph).Update
+  requires p != nil && pwf(p.Values, p.Order)
+  ensures result.Values != nil && pwf(result.Values, result.Order)
+  ensures len(result.Order) >= len(p.Order) && (forall i int :: 0 <= i && i < len(p.Order) ==> result.Order[i] == p.Order[i])
+  ensures forall k string :: has(result.Values, k) <==> (has(p.Values, k) || idxOf(other.Order, k, len(other.Order)) >= 0)
+  ensures forall k string :: idxOf(other.Order, k, len(other.Order)) >= 0 ==> result.Values[k] == other.Values[k]
+  ensures forall k string :: has(p.Values, k) && idxOf(other.Order, k, len(other.Order)) < 0 ==> result.Values[k] == p.Values[k]
+  loop 1:
+    invariant -1 <= rangeindex#1 && rangeindex#1 < len(p.Order)
+    invariant ret.Values == entry(ret.Values) && seen == entry(seen)
+    invariant ret.Values != nil && seen != nil && ret.Values != p.Values && ret.Values != other.Values && seen != p.Values
+    invariant len(ret.Order) == rangeindex#1 + 1 && (forall i int :: 0 <= i && i <= rangeindex#1 ==> ret.Order[i] == p.Order[i])
+    invariant forall k string :: has(ret.Values, k) <==> idxOf(p.Order, k, rangeindex#1 + 1) >= 0
+    invariant forall k string :: has(seen, k) <==> has(ret.Values, k)
+    invariant forall k string :: has(ret.Values, k) ==> ret.Values[k] == p.Values[k]
+    decreases len(p.Order) - rangeindex#1
+  loop 2:
+    invariant -1 <= rangeindex#2 && rangeindex#2 < len(other.Order)
+    invariant ret.Values == entry(ret.Values) && seen == entry(seen)
+    invariant ret.Values != nil && seen != nil && ret.Values != p.Values && ret.Values != other.Values && seen != p.Values
+    invariant pwf(ret.Values, ret.Order)
+      by { forall k string { idxOf_prefix(p.Order, ret.Order, k, len(p.Order));
+                             idxOf_prefix(at(L2.head, ret.Order), ret.Order, k, len(at(L2.head, ret.Order))) };
+           forall i int { idxOf_found(p.Order, i, len(p.Order)) } }
+    invariant len(ret.Order) >= len(p.Order) && (forall i int :: 0 <= i && i < len(p.Order) ==> ret.Order[i] == p.Order[i])
+    invariant forall k string :: has(seen, k) <==> has(ret.Values, k)
+    invariant forall k string :: has(ret.Values, k) <==> (has(p.Values, k) || idxOf(other.Order, k, rangeindex#2 + 1) >= 0)
+    invariant forall k string :: idxOf(other.Order, k, rangeindex#2 + 1) >= 0 ==> ret.Values[k] == other.Values[k]
+    invariant forall k string :: has(p.Values, k) && idxOf(other.Order, k, rangeindex#2 + 1) < 0 ==> ret.Values[k] == p.Values[k]
+    decreases len(other.Order) - rangeindex#2
+
+property C07: lemma idxOf_prefix, (*ParagraphReader).Next, (*ParagraphReader).All
+property C09: lemma idxOf_prefix, lemma idxOf_found, (*Paragraph).Set, (*Paragraph).Update
+
+@*/
